@@ -456,3 +456,28 @@ reg('C17', module='c17', level='exploration',
                        'commands_logged': 8000, 'verdicts_compared': 1500,
                        'shortcuts_compared': 50},
              'thorough': {'histories': 20000, 'api_calls': 200000}})
+
+reg('C09', module='c09', level='exploration',
+    technique=('runtime monitoring: print/parse round trips observed by '
+               'object identity (SMT-LIB), command-list keys (scripts) and '
+               'type + reference value + flattened structure (HR)'),
+    rule=('random formulas (sharing, quantifiers, all theories, hostile '
+          'names, .def_N names) x {tree, dag} printers; API-built scripts of '
+          'serialisable commands (declarations, define-fun with parameters, '
+          'assert(-soft), push/pop, check-sat, get-value, objectives); '
+          'formulas of the HR fragment; distinct = (procedure, formula key)'),
+    level_text=('parse(print(f)) must be the very same object (constant '
+                'array literals compared after folding store chains); a '
+                'parsed script must re-serialise to text that parses to the '
+                'same command list (definition parameters renamed); HR '
+                'round trips must keep type, value and structure up to '
+                'grouping of n-ary operators.'),
+    level_note='trusts vf/keys.py, vf/refeval.py',
+    assumptions=['HR fragment: identifiers [A-Za-z_][A-Za-z0-9_]* that are '
+                 'not HR keywords, string constants without quote/backslash, '
+                 'no custom sorts, no String inside Array sorts, no Pow'],
+    require={'quick': {'identity_compared': 4000, 'hr_compared': 2000,
+                       'scripts_compared': 1000},
+             'thorough': {'identity_compared': 100000,
+                          'hr_compared': 100000,
+                          'scripts_compared': 50000}})
